@@ -116,7 +116,11 @@ pub fn run_c13(ctx: &Ctx, index: u64, cov: &mut Cov) -> Option<Violation> {
         c.0 = workload.clone();
         c.1.clear();
     }
-    let capn = rng.below(40);
+    // mostly small; now and then a request that is large in bytes
+    let capn = if index % 97 == 5 { [3_000usize, 12_000, 50_000, 200_000][rng.below(4)] + rng.below(1000) } else { rng.below(40) };
+    if capn > 1000 {
+        cov.bump("with_capacity_requests_above_1000_nodes");
+    }
     let mut a: State<Plain> = State::new();
     let mut b: Arena<Plain> = Arena::with_capacity(capn);
     if b.capacity() < capn {
@@ -289,6 +293,19 @@ pub fn run_c13(ctx: &Ctx, index: u64, cov: &mut Cov) -> Option<Violation> {
             Err(_) => return None,
         }
         cov.evaluations += 1;
+    }
+    if index % 89 == 7 {
+        // a large reserve on a used arena
+        let k = [5_000usize, 40_000, 150_000][rng.below(3)] + rng.below(500);
+        let before = a.arena.clone();
+        a.arena.reserve(k);
+        if a.arena.capacity() < a.arena.count() + k {
+            return v(ctx, "reserve-room", format!("after reserve({}) capacity() = {} < count() {} + {}", k, a.arena.capacity(), a.arena.count(), k), &workload, ops.len(), &ops);
+        }
+        if a.arena != before {
+            return v(ctx, "reserve-observable", format!("reserve({}) changed the observable arena", k), &workload, ops.len(), &ops);
+        }
+        cov.bump("reserve_requests_above_1000_nodes");
     }
     // (c) clear
     let cap = a.arena.capacity();
@@ -651,6 +668,12 @@ pub fn read_battery<P: Payload + std::fmt::Display>(a: &Arena<P>, yield_seed: u6
         for e in id.reverse_traverse(a).take(bound) { d.s(&format!("{:?}", e)) }
         if n.parent().is_none() {
             maybe_yield(&mut r);
+            if yield_seed != 0 && r.chance(1, 2) {
+                // a print aborted part-way on this thread must not change what is printed next
+                use std::fmt::Write as _;
+                let mut w = mon::LimitedWriter { left: r.below(48) };
+                let _ = write!(w, "{:#?}", id.debug_pretty_print(a));
+            }
             d.s(&format!("{}", id.debug_pretty_print(a)));
             d.s(&format!("{:#?}", id.debug_pretty_print(a)));
         }
